@@ -5,7 +5,7 @@ Import ListNotations.
 
 (** For every model of the formula vocabulary — formulas may handle the
     failures of their callees: a value computed over a failure is returned but
-    not kept (finding D20, repaired in /repo 58f2802; the model's [s_taint]) —
+    not kept (finding D20, repaired in /repo f19aef6; the model's [s_taint]) —
     whose formulas read by name
     only references visible in their space ([refn_ok], a static scoping
     condition), and every finite interleaving [ops] of evaluations with
